@@ -368,6 +368,15 @@ def tyrving(ctx, repo):
                                 except Exception:
                                     if st_.targets[0].id == 'diffs':
                                         raise
+                            elif isinstance(st_, ast.If):
+                                # an if / elif chain that only selects a value (delta = ... per piece): executed on the exact values
+                                protected = {vname, 'levels', 'multipliers'}
+                                if not any(isinstance(t_, ast.Name) and t_.id in protected and isinstance(t_.ctx, ast.Store) for t_ in ast.walk(st_)) \
+                                        and not any(isinstance(x_, (ast.Return, ast.Raise)) for x_ in ast.walk(st_)):
+                                    try:
+                                        Fd.stmt(st_, env)
+                                    except Exception:
+                                        pass
                         vals.append(Fd.expr(inner, env))
                     except Exception as e:
                         raise AnalysisError('stav_points: cannot evaluate the piecewise expression exactly: %s' % e)
